@@ -130,7 +130,7 @@ def shrink(exe, stream, case, got0):
 
 def _limits():
     try:
-        resource.setrlimit(resource.RLIMIT_AS, (6 << 30, 6 << 30))
+        resource.setrlimit(resource.RLIMIT_AS, (2 << 30, 2 << 30))
     except Exception:
         pass
 
@@ -274,7 +274,8 @@ def run(ctx):
 
     for stream, nq, nt in STREAMS:
         n = nq if quick else nt
-        r = verif.run_stream(exe, stream, ctx.seed, n, ctx.work, shards=min(verif.NPROC, 8), driver_exe=DRV)
+        r = verif.run_stream(exe, stream, ctx.seed, n, ctx.work, shards=min(verif.NPROC, 8), driver_exe=DRV,
+                             timeout=900 if quick else 3000)
         corr[stream] = {"cases": r["cases"], "disagreements": len(r["disagreements"]) + r.get("more_disagreements", 0),
                         "distribution": r["stats"]}
         ctx.cov["samples"] += r.get("samples", [])[:1]
